@@ -225,12 +225,14 @@ Qed.
 (* ---------- the link ---------- *)
 Definition case_good (c : case) : Prop :=
   k_sch c <> [] /\ args_nice (k_sch c) (k_a0 c) /\ args_nice (k_sch c) (k_a1 c)
-  /\ forall t0 t1, m_construct (k_sch c) (k_a0 c) = Some t0 -> m_construct (k_sch c) (k_a1 c) = Some t1 ->
-       run_good (k_sch c) (k_sch c) t0 t1 (k_prog c).
+  /\ (forall t0 t1, m_construct (k_sch c) (k_a0 c) = Some t0 -> m_construct (k_sch c) (k_a1 c) = Some t1 ->
+       run_good (k_sch c) (k_sch c) t0 t1 (k_prog c))
+  (* the case is outside the open finding: no single-row index while a ragged column is an unmaterialised view *)
+  /\ lazy_pred (map (fun _ => false) (k_sch c)) (k_prog c) (k_steps c) = step_errs (k_steps c).
 
 Theorem model_ok_spec_ok c : case_good c -> model_ok c = true -> spec_ok c = true.
 Proof.
-  intros [Hs [N0 [N1 Hg]]] H. unfold model_ok in H. cbv zeta in H.
+  intros [Hs [N0 [N1 [Hg Hlz]]]] H. unfold model_ok in H. cbv zeta in H. rewrite Hlz in H.
   repeat (apply andb_prop in H; destruct H as [H ?]).
   rename H into M0. rename H0 into M1'. 
   destruct (construct_link _ _ _ Hs N0 M0) as [C0 R0].
